@@ -19,6 +19,7 @@ def main():
     prop = sys.argv[1]
     src_wt = "/tmp/seed-" + prop
     seed = sys.argv[2] if len(sys.argv) > 2 else os.path.join(src_wt, "seed")
+    src_wt = os.path.dirname(os.path.abspath(seed))
     tier = os.environ.get("SEED_TIER", "quick")
     patch = os.path.join(seed, "patch.diff")
     demos = [f for f in glob.glob(os.path.join(seed, "*.go")) if os.path.isfile(f)]
